@@ -106,9 +106,9 @@ func VerifTrim(node *networkv1beta1.Node) error {
 	return n.adjustPool(ctx, node)
 }
 
-// VerifMergeIPMap exposes mergeIPMap.
-func VerifMergeIPMap(remote, current map[string]*networkv1beta1.IP) {
-	mergeIPMap(logr.Discard(), remote, current)
+// VerifMergeIPMap exposes mergeIPMap as its caller uses it (the merged map is what is stored back).
+func VerifMergeIPMap(remote, current map[string]*networkv1beta1.IP) map[string]*networkv1beta1.IP {
+	return mergeIPMap(logr.Discard(), remote, current)
 }
 
 // VerifNewReconcileNode builds the per-node IPAM reconciler over injected clients.
